@@ -546,6 +546,14 @@ func pushEdgeCore(r *Roles, ph *pushHandler, readErr ssa.Value, maxBytes bool, l
 					}
 				}
 			}
+			// the request declared no media type: nothing declared to compare — the recorded type can only be the detector's
+			for _, pair := range [][2]ssa.Value{{x, y}, {y, x}} {
+				if s2, isStr := an.ConstString(pair[1]); isStr && s2 == "" && ph.declaredDerived(r, pair[0], 0) {
+					if (op == token.EQL && succ == 0) || (op == token.NEQ && succ == 1) {
+						s.bits |= bMTCmp
+					}
+				}
+			}
 			// length comparison
 			okSucc := -1
 			switch {
@@ -626,7 +634,46 @@ func mtPredicate(h *ssa.Function) (declIdx, bodyIdx int, ok bool) {
 					}
 				}
 				if !found {
-					good = false
+					// `return true` reached over several edges (`if detected == "" || detected == declared`): every one of
+					// them is the ‘nothing detected’ edge or the ‘both equal’ edge
+					all := len(ret.Block().Preds) > 0
+					for _, pb := range ret.Block().Preds {
+						ifi := an.BlockIf(pb)
+						if ifi == nil {
+							all = false
+							break
+						}
+						x, y, op, isCmp := an.CmpTest(ifi)
+						if !isCmp {
+							all = false
+							break
+						}
+						okEdge := false
+						for si, sc := range pb.Succs {
+							if sc != ret.Block() {
+								continue
+							}
+							eq := (op == token.EQL && si == 0) || (op == token.NEQ && si == 1)
+							if !eq {
+								continue
+							}
+							if s0, isS := an.ConstString(y); isS && s0 == "" {
+								if i := paramIdx(x); i >= 0 && (bodyIdx < 0 || bodyIdx == i) {
+									bodyIdx = i
+									okEdge = true
+								}
+							} else if i, j := paramIdx(x), paramIdx(y); i >= 0 && j >= 0 && i != j {
+								okEdge = true
+							}
+						}
+						if !okEdge {
+							all = false
+							break
+						}
+					}
+					if !all {
+						good = false
+					}
 				}
 				continue
 			}
@@ -2643,6 +2690,20 @@ func init() {
 					if root == parsed && len(p) > 0 {
 						return strings.Join(p, "."), true
 					}
+					// a variable that holds one of several fields of the body (`nested := m.Config.MediaType; if isIndex { nested =
+					// m.Manifests[0].MediaType }`): the test speaks of all of them (joined with "+")
+					if ph, isPhi := an.Strip(v).(*ssa.Phi); isPhi {
+						var fs []string
+						for _, e := range ph.Edges {
+							r2, p2 := accessPath(an.Strip(e))
+							if r2 != parsed || len(p2) == 0 {
+								return "", false
+							}
+							fs = append(fs, strings.Join(p2, "."))
+						}
+						sort.Strings(fs)
+						return strings.Join(fs, "+"), true
+					}
 					return "", false
 				}
 				f, ok := field(x)
@@ -2673,20 +2734,60 @@ func init() {
 				}
 				return ps, f, true
 			}
+			// a condition value branched on twice has the same outcome both times on one path: the state carries the outcomes
+			// seen so far behind a "|"
+			condStep := func(st string, from *ssa.BasicBlock, succ int) (string, bool) {
+				ifi := an.BlockIf(from)
+				if ifi == nil {
+					return st, true
+				}
+				base, neg := an.CondBase(ifi.Cond)
+				if _, isC := base.(*ssa.Const); isC {
+					return st, true
+				}
+				id := fmt.Sprintf("%p", base)
+				truth := "F"
+				if (succ == 0) != neg {
+					truth = "T"
+				}
+				facts, conds, _ := strings.Cut(st, "|")
+				for _, kv := range strings.Split(conds, ";") {
+					if k, v, ok := strings.Cut(kv, "="); ok && k == id {
+						return st, v == truth
+					}
+				}
+				if conds != "" {
+					conds += ";"
+				}
+				return facts + "|" + conds + id + "=" + truth, true
+			}
+			factsOf := func(st string) string { f, _, _ := strings.Cut(st, "|"); return f }
+			withFacts := func(st, facts string) string {
+				_, conds, has := strings.Cut(st, "|")
+				if !has {
+					return facts
+				}
+				return facts + "|" + conds
+			}
 			bad, badField := token.NoPos, ""
 			an.Paths(an.PathSpec[string]{Fn: fn, Init: "",
 				Instr: func(s string, in ssa.Instruction) []string {
-					if ret, ok := in.(*ssa.Return); ok && s != "" && len(ret.Results) == 1 {
+					if ret, ok := in.(*ssa.Return); ok && factsOf(s) != "" && len(ret.Results) == 1 {
 						if v, ok := an.ConstString(ret.Results[0]); ok && v == "" && bad == token.NoPos {
-							bad, badField = ret.Pos(), s
+							bad, badField = ret.Pos(), factsOf(s)
 						}
 					}
 					return []string{s}
 				},
 				Edge: func(s string, from *ssa.BasicBlock, succ int) (string, bool) {
-					if ifi := an.BlockIf(from); ifi != nil && s == "" {
-						if ps, f, ok := presentSucc(ifi); ok && succ == ps {
-							return f, true
+					s, feasible := condStep(s, from, succ)
+					if !feasible {
+						return s, false
+					}
+					if ifi := an.BlockIf(from); ifi != nil && factsOf(s) == "" {
+						// (a variable holding one of several fields says nothing about which of them is present)
+						if ps, f, ok := presentSucc(ifi); ok && succ == ps && !strings.Contains(f, "+") {
+							return withFacts(s, f), true
 						}
 					}
 					return s, true
@@ -2723,7 +2824,7 @@ func init() {
 						if v, ok := an.ConstString(ret.Results[0]); ok && v == "" && !onParseError(ret.Block()) {
 							var ms []string
 							for m := range markers {
-								if !strings.Contains(","+st+",", ","+m+",") {
+								if !strings.Contains(","+factsOf(st)+",", ","+m+",") {
 									ms = append(ms, m)
 								}
 							}
@@ -2736,21 +2837,28 @@ func init() {
 					return []string{st}
 				},
 				Edge: func(st string, from *ssa.BasicBlock, succ int) (string, bool) {
+					st, feasible := condStep(st, from, succ)
+					if !feasible {
+						return st, false
+					}
 					if ifi := an.BlockIf(from); ifi != nil {
 						if ps, f, ok := presentSucc(ifi); ok && succ != ps {
-							top := f
-							if i := strings.Index(top, "."); i >= 0 {
-								top = top[:i]
+							cur := factsOf(st)
+							parts := strings.Split(cur, ",")
+							if cur == "" {
+								parts = nil
 							}
-							if !strings.Contains(","+st+",", ","+top+",") {
-								parts := strings.Split(st, ",")
-								if st == "" {
-									parts = nil
+							for _, one := range strings.Split(f, "+") {
+								top := one
+								if i := strings.Index(top, "."); i >= 0 {
+									top = top[:i]
 								}
-								parts = append(parts, top)
-								sort.Strings(parts)
-								return strings.Join(parts, ","), true
+								if !strings.Contains(","+strings.Join(parts, ",")+",", ","+top+",") {
+									parts = append(parts, top)
+								}
 							}
+							sort.Strings(parts)
+							return withFacts(st, strings.Join(parts, ",")), true
 						}
 					}
 					return st, true
